@@ -129,6 +129,14 @@ pub fn report_self_deadlock(task: usize, lock: usize) {
 }
 
 fn outcome_string(log: &ExecLog) -> String {
+    if log.impl_events.iter().any(|(t, _)| *t == scen::NOT_SHAREABLE) {
+        return scen::NOT_SHAREABLE.to_string();
+    }
+    if !log.impl_events.is_empty() {
+        // shareability family: the interleaving of the implementation's read / write steps
+        let ev: Vec<String> = log.impl_events.iter().map(|(t, k)| format!("{}{}", t, k)).collect();
+        return format!("calls[{}]", ev.join(","));
+    }
     let neg: Vec<String> = log.negotiations.iter().map(|(k, t)| format!("{}:t{}", k, t)).collect();
     let mut firsts = vec![];
     for (li, name) in LOCK_NAMES.iter().enumerate() {
@@ -402,7 +410,8 @@ fn child_explore(a: ChildArgs) -> ! {
             let t = &mut c.tally;
             t.executions += 1;
             let is_new = c.prev.map(|p| log.preemptions > p).unwrap_or(true);
-            let contended = log.blocked > 0;
+            let overlaps = log.overlaps();
+            let contended = log.blocked > 0 || overlaps > 0;
             if is_new {
                 t.new_executions += 1;
             }
@@ -412,7 +421,7 @@ fn child_explore(a: ChildArgs) -> ! {
                     t.new_contended += 1;
                 }
             }
-            t.contended_acquisitions += log.blocked as u64;
+            t.contended_acquisitions += (log.blocked + overlaps) as u64;
             *t.preemption_histogram.entry(log.preemptions).or_insert(0) += 1;
             t.schedule_hashes.insert(fnv(&log.path));
             let nops = s.setup.len() + s.post.len() + s.threads.iter().map(|x| x.len()).sum::<usize>();
@@ -430,7 +439,7 @@ fn child_explore(a: ChildArgs) -> ! {
             *t.outcomes.entry(outcome.clone()).or_insert(0) += 1;
             let sample = json!({
                 "scenario": c.scenario, "bound": c.bound, "schedule": path_str(&log.path),
-                "preemptions": log.preemptions, "blocked_acquisitions": log.blocked,
+                "preemptions": log.preemptions, "blocked_acquisitions": log.blocked, "overlapping_calls": overlaps,
                 "outcome": outcome, "results": obs_json(&obs),
             });
             if t.samples.len() < 2 || (contended && t.samples.len() < 3) {
@@ -977,6 +986,14 @@ fn main() {
         println!("SELFTEST OK");
         std::process::exit(0);
     }
+    // the compile-time Sync probe must be able to answer both ways, and the positive control
+    // interface must be shareable
+    if !ifaces::PROBE_CONTROL_TRUE || ifaces::PROBE_CONTROL_FALSE {
+        vcommon::machinery_error("the compile-time Sync probe does not discriminate (u32 / Cell<u32> controls)");
+    }
+    if !ifaces::TALLYSYNC_CONN_IS_SYNC {
+        vcommon::machinery_error("AbiConnection<dyn TallySync> (TallySync: Send + Sync) is not Sync: the positive control of the shareability family cannot run");
+    }
     let mut run = vcommon::Run::new(&args, "model_checking");
     let workers = std::thread::available_parallelism().map(|n| n.get()).unwrap_or(4).min(16);
 
@@ -1130,12 +1147,22 @@ fn main() {
             }));
         }
         // vacuity guards for the racing scenarios
-        if !reported && s.threads.len() >= 2 {
+        let not_shareable = outcomes.len() == 1 && outcomes.contains(scen::NOT_SHAREABLE);
+        if s.share != scen::Share::No {
+            let probe = match s.share {
+                scen::Share::Tally => ifaces::TALLY_CONN_IS_SYNC,
+                _ => ifaces::TALLYSYNC_CONN_IS_SYNC,
+            };
+            if !reported && probe == not_shareable {
+                vcommon::machinery_error(&format!("scenario {}: the compile-time probe says Sync={} but the sharing helper answered the opposite", s.id, probe));
+            }
+        }
+        if !reported && s.threads.len() >= 2 && !not_shareable {
             if outcomes.len() < 2 {
                 vcommon::machinery_error(&format!("scenario {}: only {} distinct outcome(s): the threads never raced", s.id, outcomes.len()));
             }
             if contended_any == 0 {
-                vcommon::machinery_error(&format!("scenario {}: no execution with a blocked acquisition", s.id));
+                vcommon::machinery_error(&format!("scenario {}: no execution with a blocked acquisition or overlapping calls", s.id));
             }
         }
         all_outcomes += outcomes.len() as u64;
@@ -1148,6 +1175,11 @@ fn main() {
                 "bounds": bounds, "completed_bound": completed_bound,
                 "distinct_outcomes": outcomes.len(), "outcomes": outcomes.iter().take(12).collect::<Vec<_>>(),
                 "max_negotiations_per_cache_key": maxneg,
+                "shared_connection": match s.share {
+                    scen::Share::No => Value::Null,
+                    _ if not_shareable => json!("not_shareable: AbiConnection of this interface is not Sync, safe code cannot make overlapping calls (trivially fine)"),
+                    _ => json!("shareable: Arc<AbiConnection<..>> moved into the threads by safe code"),
+                },
                 "violation": reported,
             }),
         );
@@ -1164,7 +1196,7 @@ fn main() {
     cov.insert("distinct_nontrivial".into(), json!(nontrivial));
     cov.insert(
         "rule".into(),
-        json!("state = (scenario, schedule): every schedule of the scenario's tasks with at most p preemptions, enumerated depth first for p = 0,1,2(,3,unbounded); a schedule is counted once, at the smallest bound that contains it. transitions = scheduling decisions. non-trivial = during the execution at least one task was BLOCKED in Guard::lock on a cache mutex held by another task (seen by the scheduler as a waiting task that is not runnable)"),
+        json!("state = (scenario, schedule): every schedule of the scenario's tasks with at most p preemptions, enumerated depth first for p = 0,1,2(,3,unbounded); a schedule is counted once, at the smallest bound that contains it. transitions = scheduling decisions. non-trivial = during the execution at least one task was BLOCKED in Guard::lock on a cache mutex held by another task (seen by the scheduler as a waiting task that is not runnable), or, in the shareability scenarios Y*, two calls on the shared connection overlapped (another task ran between a call's read and its write)"),
     );
     cov.insert("samples".into(), Value::Array(samples));
     cov.insert("exhaustive".into(), json!(exhaustive));
@@ -1173,6 +1205,15 @@ fn main() {
     cov.insert("preemption_bounds".into(), json!(if thorough { "0..3 for all scenarios, then unbounded (2-thread scenarios) or 4 and 5 (3-thread scenarios); see scenarios.*.bounds" } else { "0..2" }));
     cov.insert("scenarios".into(), Value::Object(per_scenario));
     cov.insert("explorer_selftest".into(), st.report);
+    cov.insert(
+        "shareability_probe".into(),
+        json!({
+            "AbiConnection<dyn Tally> is Sync (Tally: Send, Cell/RefCell state)": ifaces::TALLY_CONN_IS_SYNC,
+            "AbiConnection<dyn TallySync> is Sync (TallySync: Send + Sync, atomic state)": ifaces::TALLYSYNC_CONN_IS_SYNC,
+            "control u32 is Sync": ifaces::PROBE_CONTROL_TRUE,
+            "control Cell<u32> is Sync": ifaces::PROBE_CONTROL_FALSE,
+        }),
+    );
     cov.insert("cdylib".into(), json!(plugin_note));
     cov.insert("caps".into(), json!({"executions_per_scenario_and_bound": lim.max_exec_per_job, "executions_per_process": lim.chunk, "scheduling_decisions_per_execution": MAX_STEPS}));
     let assumptions = vec![
